@@ -6,6 +6,9 @@ Model: `Frequenz/Model/Distributor.lean` (`step` interprets the decision table e
 (any number of groups, any number of requests, any interleaving of arrivals and completions, any outcome
 `ok | exc` of every completion); `Admissible` only says that a completion is delivered for a group that
 has an uncompleted task.  All statements are about the observable trace (events + `start` outputs).
+A request `r : Req` is a whole `Request` object — identity plus fields (power, adjust_power) — so "the most
+recent request" below is the most recent OBJECT with all its fields, whatever the other waiting requests
+ask for (equal power, equal in every field, …).
 -/
 import Frequenz.Lemmas.DistributorAdm
 
@@ -146,27 +149,43 @@ theorem C14_full : C14_statement :=
 
 /-! ## Non-vacuity: a concrete admissible history with overlapping requests, two groups, a failing task -/
 
+/-- Request objects: `q i p a` = the `i`-th object the environment created, asking for `p` W with
+`adjust_power = a`. -/
+abbrev C14_q (i : Nat) (p : Int) (a : Bool) : Req := { id := i, power := p, adjust := a }
+
 /-- r1 starts; r2 and r3 arrive while it runs (r3 overwrites r2); group 1 is served meanwhile; r1 FAILS:
-r3 is started at once and r2 never is; then r3 succeeds. -/
+r3 is started at once and r2 never is; then r3 succeeds.  r2 and r3 ask for the SAME power and differ only
+in `adjust_power`: the request started is r3 — the object that arrived last — with r3's flag. -/
 def C14_example : List Event :=
-  [.arrive 0 1, .arrive 0 2, .arrive 1 7, .arrive 0 3, .complete 0 .exc, .complete 0 .ok]
+  [.arrive 0 (C14_q 1 1000 true), .arrive 0 (C14_q 2 5000 true), .arrive 1 (C14_q 7 7000 true),
+   .arrive 0 (C14_q 3 5000 false), .complete 0 .exc, .complete 0 .ok]
 
 example : Admissible C14_example :=
-  Admissible.complete (es := [.arrive 0 1, .arrive 0 2, .arrive 1 7, .arrive 0 3, .complete 0 .exc]) 0 .ok
-    (Admissible.complete (es := [.arrive 0 1, .arrive 0 2, .arrive 1 7, .arrive 0 3]) 0 .exc
-      (Admissible.arrive (es := [.arrive 0 1, .arrive 0 2, .arrive 1 7]) 0 3
-        (Admissible.arrive (es := [.arrive 0 1, .arrive 0 2]) 1 7
-          (Admissible.arrive (es := [.arrive 0 1]) 0 2
-            (Admissible.arrive (es := []) 0 1 Admissible.nil))))
+  Admissible.complete (es := C14_example.take 5) 0 .ok
+    (Admissible.complete (es := C14_example.take 4) 0 .exc
+      (Admissible.arrive (es := C14_example.take 3) 0 (C14_q 3 5000 false)
+        (Admissible.arrive (es := C14_example.take 2) 1 (C14_q 7 7000 true)
+          (Admissible.arrive (es := C14_example.take 1) 0 (C14_q 2 5000 true)
+            (Admissible.arrive (es := []) 0 (C14_q 1 1000 true) Admissible.nil))))
       (by decide))
     (by decide)
 
 example : trace C14_example =
-    [(.arrive 0 1, [.start 0 1]), (.arrive 0 2, []), (.arrive 1 7, [.start 1 7]), (.arrive 0 3, []),
-     (.complete 0 .exc, [.start 0 3]), (.complete 0 .ok, [])] := by decide
+    [(.arrive 0 (C14_q 1 1000 true), [.start 0 (C14_q 1 1000 true)]), (.arrive 0 (C14_q 2 5000 true), []),
+     (.arrive 1 (C14_q 7 7000 true), [.start 1 (C14_q 7 7000 true)]), (.arrive 0 (C14_q 3 5000 false), []),
+     (.complete 0 .exc, [.start 0 (C14_q 3 5000 false)]), (.complete 0 .ok, [])] := by decide
 
-example : startsOf 0 (trace C14_example) = [1, 3] ∧ arrivalsOf 0 (trace C14_example) = [1, 2, 3] ∧
+example : startsOf 0 (trace C14_example) = [C14_q 1 1000 true, C14_q 3 5000 false] ∧
+    arrivalsOf 0 (trace C14_example) = [C14_q 1 1000 true, C14_q 2 5000 true, C14_q 3 5000 false] ∧
     inFlight 0 (trace C14_example) = 0 ∧ inFlight 1 (trace C14_example) = 1 := by decide
+
+/-- Requests that are equal field by field but are different objects stay different requests: the one
+started after the completion is object 3 (the last to arrive), not object 2. -/
+example : trace [.arrive 0 (C14_q 1 1000 true), .arrive 0 (C14_q 2 5000 true), .arrive 0 (C14_q 3 5000 true),
+      .complete 0 .ok] =
+    [(.arrive 0 (C14_q 1 1000 true), [.start 0 (C14_q 1 1000 true)]), (.arrive 0 (C14_q 2 5000 true), []),
+     (.arrive 0 (C14_q 3 5000 true), []), (.complete 0 .ok, [.start 0 (C14_q 3 5000 true)])] ∧
+    C14_q 2 5000 true ≠ C14_q 3 5000 true := by decide
 
 /-- A history that is NOT admissible (a completion without a task) — `Admissible` is not trivially true. -/
 example : ¬ Admissible [Event.complete 0 Outcome.ok] := by
